@@ -613,6 +613,7 @@ func recvAd(ctx context.Context, st *stream.Stream) (*classad.ClassAd, error) {
 }
 
 type clientResult struct {
+	valid    string // ValidCommands the server advertised to an honest client
 	hsOK     bool
 	sid      string
 	user     string // identity established (what the client claimed and the server acked)
@@ -775,6 +776,7 @@ func (r *caseRun) runConn(sp *ConnSpec) (obsTerm string, connTerm string) {
 		if err == nil {
 			res.hsOK = true
 			res.sid = neg.SessionId
+			res.valid = neg.ValidCommands
 			res.authReal = neg.Authentication
 			if neg.Authentication {
 				res.user = osUser
@@ -873,6 +875,21 @@ func (r *caseRun) runConn(sp *ConnSpec) (obsTerm string, connTerm string) {
 		r.checks++
 		if mustRefuse(inv.at, path, inv.Cmd, res.authReal, inv.EncReal, res.user, sp.Peer) {
 			r.bad(cr, "ran-command-that-must-be-refused", "command %d (position %d of %v, client %s/%s) ran although the session really had auth=%t enc=%t user=%q", inv.Cmd, k, sp.Cmds, sp.Kind, sp.Key, res.authReal, inv.EncReal, res.user)
+		}
+	}
+	// ValidCommands as the client received them (end to end, not through the hook):
+	// with an authorizer, every advertised command other than the negotiated one
+	// comes from postAuthPolicy and must be runnable by this very session now
+	if t0 := r.spec.Tables[sp.Tables]; sp.Kind == "honest" && res.hsOK && t0.HasAuthz && res.valid != "" {
+		for _, f := range strings.Split(res.valid, ",") {
+			var v int
+			if _, err := fmt.Sscanf(strings.TrimSpace(f), "%d", &v); err != nil || v == sp.Cmds[0] {
+				continue
+			}
+			r.checks++
+			if mustRefuse(t0, "auth", v, res.authReal, res.encReal, res.user, sp.Peer) {
+				r.bad(cr, "advertised-command-not-runnable", "ValidCommands=%q advertises %d to a session (auth=%t enc=%t user=%q) that may not run it now", res.valid, v, res.authReal, res.encReal, res.user)
+			}
 		}
 	}
 	if sp.Kind != "garbage" {
